@@ -575,18 +575,19 @@ theorem prologue_shape (hg : GlobRel g rg) (hn : GNames g) (cond : IfCond) (dup 
   have q1 := quiet_ifLabels le s0
   have f1 := ifLabels_fields le s0
   have c1 := ctx_ifLabels le s0
+  have d1 := dts_ifLabels le s0
   have hl0 : ∀ l0, le = some l0 → (ifLabels le s0).2.2.1 = l0 := by
     intro l0 h; subst h; unfold ifLabels; rfl
-  generalize ifLabels le s0 = p at he q1 f1 c1 hl0 ⊢
+  generalize ifLabels le s0 = p at he q1 f1 c1 d1 hl0 ⊢
   obtain ⟨lBegin, lElse, lEnd, s1⟩ := p
-  dsimp only at he q1 f1 c1 hl0 ⊢
+  dsimp only at he q1 f1 c1 d1 hl0 ⊢
   rw [(push_fields _ _).1] at he
   have x2 := (esteps_ifCondCalc g cond lBegin lElse lEnd isElse s1).errors_ext
   have x1 : ∃ Δ, s1.errors = s.errors ++ Δ := by rw [f1.1]; exact x0
   obtain ⟨e1, e2⟩ := chain2 x1 x2 he
   have hs0 : s0 = s := hdup (by rw [← f1.1]; exact e1)
   subst hs0
-  have r1 : DRel g R s1 ss.push := drel_enter hr q1 f1.2.1
+  have r1 : DRel g R s1 ss.push := drel_enter hr q1 f1.2.1 d1
   obtain ⟨s2, br, hst, hcalc, hbr, hnr, hne, hcnt⟩ := cond_shape hg hn cond lBegin lElse lEnd isElse s1 ss.push r1 e2
   obtain ⟨seg, hseg, hstr⟩ := esteps_seg hst
   refine ⟨seg, br, lBegin, ?_, hstr, ?_, hbr, hnr, hne, hl0⟩
@@ -646,12 +647,13 @@ theorem lay_loopWrap (k : Name → Name → Bool → Bool → Bool → St → St
   have q1 := quiet_loopPrologue s
   have f1 := loopPrologue_fields s
   have c1 := ctx_loopPrologue s
-  generalize loopPrologue s = p at he q1 f1 c1 ⊢
+  have d1 := dts_loopPrologue s
+  generalize loopPrologue s = p at he q1 f1 c1 d1 ⊢
   obtain ⟨lb, le, s1⟩ := p
-  dsimp only at he q1 f1 c1 ⊢
+  dsimp only at he q1 f1 c1 d1 ⊢
   have x2 := (hx lb le false false false s1).errors_ext
-  have h2 := hk lb le s1 ss.push (drel_enter hr q1 f1.2.1)
-  have hl := fun b => hlay lb le b s1 ss.push (drel_enter hr q1 f1.2.1)
+  have h2 := hk lb le s1 ss.push (drel_enter hr q1 f1.2.1 d1)
+  have hl := fun b => hlay lb le b s1 ss.push (drel_enter hr q1 f1.2.1 d1)
   have hrt := hret lb le s1
   generalize k lb le false false false s1 = q at he x2 h2 hl hrt ⊢
   obtain ⟨s2, r⟩ := q
@@ -948,9 +950,10 @@ theorem lay_ifCondition (hg : GlobRel g rg) (hn : GNames g) : ∀ (i : IfStmt) (
     have q3 := quiet_ifAfterBody (els.isSome || elif.isSome) r lElse lEnd s2
     have f3 := ifAfterBody_fields (els.isSome || elif.isSome) r lElse lEnd s2
     have c3 := ctx_ifAfterBody (els.isSome || elif.isSome) r lElse lEnd s2
-    generalize ifAfterBody (els.isSome || elif.isSome) r lElse lEnd s2 = q3' at he q3 f3 c3 ⊢
+    have d3 := dts_ifAfterBody (els.isSome || elif.isSome) r lElse lEnd s2
+    generalize ifAfterBody (els.isSome || elif.isSome) r lElse lEnd s2 = q3' at he q3 f3 c3 d3 ⊢
     obtain ⟨k, s3⟩ := q3'
-    dsimp only at he q3 f3 c3 ⊢
+    dsimp only at he q3 f3 c3 d3 ⊢
     have x4 : ∃ Δ, (match els, elif with
         | some eb, _ => ifAfterElse k (ifBodies g eb lEnd labelLoop s3.enter).2 lEnd (ifBodies g eb lEnd labelLoop s3.enter).1
         | none, some ei => ifCondition g ei (some lEnd) labelLoop s3
@@ -979,7 +982,7 @@ theorem lay_ifCondition (hg : GlobRel g rg) (hn : GNames g) : ∀ (i : IfStmt) (
     obtain ⟨seg0, br, lBegin, c1, hstr, hcnt, hbr, hnr, hne, hl0⟩ := p1 e1
     have hne2 : s2.inner ≠ [] := inner_ne_of_len (by rw [len2, len1])
     have f3' := f3 hne2
-    have r3 : DRel g R s3 (specBodies false rg body (specIfCond false cond ss.push)).pop := drel_leave r2 q3 f3'.2.1
+    have r3 : DRel g R s3 (specBodies false rg body (specIfCond false cond ss.push)).pop := drel_leave r2 q3 f3'.2.1 (d3 hne2) hne2
     rw [← q3.errors] at e4
     -- event numbers
     have hn1 : effCount s1.root.context = effCount s.root.context + effCount seg0 := by
@@ -999,7 +1002,7 @@ theorem lay_ifCondition (hg : GlobRel g rg) (hn : GNames g) : ∀ (i : IfStmt) (
       rw [(quiet_ifAfterElse _ _ _ _).errors] at e4
       have hbe : eb.hasBrk = true → b = true := fun h => hbrk (by unfold IfStmt.hasBrk; simp [h])
       have r3e : DRel g R s3.enter (specBodies false rg body (specIfCond false cond ss.push)).pop.push :=
-        drel_enter r3 (quiet_enter s3) (vals_enter s3)
+        drel_enter r3 (quiet_enter s3) (vals_enter s3) (dts_enter s3)
       have l4 := lay_ifBodies hg hn eb lEnd labelLoop b hokr hbe hf2.1.2 hf3.1.2 s3.enter _ r3e e4
       have c5 := ctx_ifAfterElse k (ifBodies g eb lEnd labelLoop s3.enter).2 lEnd (ifBodies g eb lEnd labelLoop s3.enter).1
       generalize ifBodies g eb lEnd labelLoop s3.enter = q4 at l4 c5 ⊢
@@ -1373,7 +1376,7 @@ theorem lay_ifLoopBody (hg : GlobRel g rg) (hn : GNames g) : ∀ (l : List IfLoo
     subst h1; subst h2; subst h3
     rw [forbidden_fff] at he x1 x2 ⊢
     have e2 := (chain2 x1 x2 he).2
-    have jd : DRel g R (s.push (Instr.jumpTo le)) ss := drel_same hr (quiet_push _ (skipped_jumpTo _) _) (vals_push _ _)
+    have jd : DRel g R (s.push (Instr.jumpTo le)) ss := drel_same hr (quiet_push _ (skipped_jumpTo _) _) (vals_push _ _) (dts_push_plain _ _ rfl)
     have jr : RetV (some (lb, le, b)) s (s.push (Instr.jumpTo le)) ([Flow.brk], effCount s.root.context) :=
       ⟨[Instr.jumpTo le], rfl, by simp [effCount, Instr.isEffect], fun rest code e => by
         subst hb
@@ -1402,7 +1405,7 @@ theorem lay_ifLoopBody (hg : GlobRel g rg) (hn : GNames g) : ∀ (l : List IfLoo
     subst h1; subst h2; subst h3
     rw [forbidden_fff] at he x1 x2 ⊢
     have e2 := (chain2 x1 x2 he).2
-    have jd : DRel g R (s.push (Instr.jumpTo lb)) ss := drel_same hr (quiet_push _ (skipped_jumpTo _) _) (vals_push _ _)
+    have jd : DRel g R (s.push (Instr.jumpTo lb)) ss := drel_same hr (quiet_push _ (skipped_jumpTo _) _) (vals_push _ _) (dts_push_plain _ _ rfl)
     have jr : RetV (some (lb, le, b)) s (s.push (Instr.jumpTo lb)) ([Flow.cont], effCount s.root.context) :=
       ⟨[Instr.jumpTo lb], rfl, by simp [effCount, Instr.isEffect], fun rest code e => by
         skip
@@ -1545,7 +1548,7 @@ theorem lay_loopBody (hg : GlobRel g rg) (hn : GNames g) : ∀ (l : List LoopStm
     subst h1; subst h2; subst h3
     rw [forbidden_fff] at he x1 x2 ⊢
     have e2 := (chain2 x1 x2 he).2
-    have jd : DRel g R (s.push (Instr.jumpTo le)) ss := drel_same hr (quiet_push _ (skipped_jumpTo _) _) (vals_push _ _)
+    have jd : DRel g R (s.push (Instr.jumpTo le)) ss := drel_same hr (quiet_push _ (skipped_jumpTo _) _) (vals_push _ _) (dts_push_plain _ _ rfl)
     have jr : RetV (some (lb, le, b)) s (s.push (Instr.jumpTo le)) ([Flow.brk], effCount s.root.context) :=
       ⟨[Instr.jumpTo le], rfl, by simp [effCount, Instr.isEffect], fun rest code e => by
         subst hb
@@ -1575,7 +1578,7 @@ theorem lay_loopBody (hg : GlobRel g rg) (hn : GNames g) : ∀ (l : List LoopStm
     subst h1; subst h2; subst h3
     rw [forbidden_fff] at he x1 x2 ⊢
     have e2 := (chain2 x1 x2 he).2
-    have jd : DRel g R (s.push (Instr.jumpTo lb)) ss := drel_same hr (quiet_push _ (skipped_jumpTo _) _) (vals_push _ _)
+    have jd : DRel g R (s.push (Instr.jumpTo lb)) ss := drel_same hr (quiet_push _ (skipped_jumpTo _) _) (vals_push _ _) (dts_push_plain _ _ rfl)
     have jr : RetV (some (lb, le, b)) s (s.push (Instr.jumpTo lb)) ([Flow.cont], effCount s.root.context) :=
       ⟨[Instr.jumpTo lb], rfl, by simp [effCount, Instr.isEffect], fun rest code e => by
         skip
